@@ -145,13 +145,13 @@ def run(ctx):
     for fid, mods in KNOWN.items():
         ctx.coverage[f"witness_{fid}_varies"] = witness_varies(mods)
     quick = ctx.tier == "quick"
-    n, procs = (20, 3) if quick else (50, 4)
+    n, procs = (20, 3) if quick else (40, 4)
     judge(ctx, [(m, ["corpus:" + fid]) for m, fid in CORPUS], 40 if quick else 100, procs, "C14 corpus")
-    programs = [mg.c14_program(ctx.rng) for _ in range(300 if quick else 2000)]
+    programs = [mg.c14_program(ctx.rng) for _ in range(300 if quick else 1500)]
     # module graphs of C15's fragment that are accepted (several modules, every visiting order matters)
     graphs = list(mg.family_e())
     edges, nsets, nflags = mg.family_d_space()
-    for _ in range(150 if quick else 1200):
+    for _ in range(150 if quick else 600):
         eset = 0
         for _ in range(ctx.rng.randint(1, 3)):
             eset |= 1 << ctx.rng.randrange(len(edges))
